@@ -271,13 +271,14 @@ def remote_rebasing():
     return bad
 
 
-EXT_A = {"src/a.f90": ("module a_mod\n  !! A\n  implicit none\n  private\n  public :: a_abs, a_iface, a_base\n  abstract interface\n    subroutine a_iface(self)\n      !! iface doc\n      import :: a_abs\n"
+EXT_A = {"src/a.f90": ("module a_mod\n  !! A\n  implicit none\n  private\n  public :: a_abs, a_iface, a_base, init_plain\n  abstract interface\n    subroutine a_iface(self)\n      !! iface doc\n      import :: a_abs\n"
                        "      class(a_abs), intent(inout) :: self\n    end subroutine a_iface\n  end interface\n  type, abstract :: a_abs\n    !! abstract type\n  contains\n    procedure(a_iface), deferred :: run\n"
                        "  end type a_abs\n  type :: a_base\n    !! base type\n    integer :: n\n  contains\n    procedure :: init\n    procedure :: show\n  end type a_base\ncontains\n"
-                       "  subroutine init(self)\n    class(a_base) :: self\n  end subroutine init\n  subroutine show(self)\n    class(a_base) :: self\n  end subroutine show\nend module a_mod\n")}
+                       "  subroutine init(self)\n    class(a_base) :: self\n  end subroutine init\n  subroutine show(self)\n    class(a_base) :: self\n  end subroutine show\n  subroutine init_plain(n)\n    integer :: n\n  end subroutine init_plain\nend module a_mod\n")}
 EXT_B = {"src/b.f90": ("module b_mod\n  !! B\n  use a_mod\n  implicit none\n  type, abstract :: b_abs\n    !! abstract in B with a deferred binding to A's interface\n  contains\n"
-                       "    procedure(a_iface), deferred :: step\n  end type b_abs\n  type, extends(a_base) :: b_child\n    !! extends A's type\n    integer :: extra\n  contains\n    procedure :: more\n"
-                       "  end type b_child\ncontains\n  subroutine more(self)\n    class(b_child) :: self\n  end subroutine more\nend module b_mod\n")}
+                       "    procedure(a_iface), deferred :: step\n  end type b_abs\n  type, extends(a_base) :: b_child\n    !! extends A's type\n    integer :: extra\n  contains\n    procedure :: more\n    procedure, nopass :: ext_bound => init_plain\n"
+                       "  end type b_child\n  interface b_gen\n    !! a generic of B that also names a procedure of A\n    procedure init_plain\n    module procedure more_plain\n  end interface b_gen\n"
+                       "contains\n  subroutine more(self)\n    class(b_child) :: self\n  end subroutine more\n  subroutine more_plain(x)\n    real :: x\n  end subroutine more_plain\nend module b_mod\n")}
 
 
 def external_entities_in_declarations():
